@@ -30,7 +30,7 @@ def shape_from_datadict(dd):
 
 def grid_params(start, stop, n):
     """exact images of linspace(start, stop, n) as the library documents it"""
-    if abs(start - stop) <= 10e-8:
+    if start == stop:          # (an interval, however short, is sampled n times: only a single parameter gives a single point)
         return [F(start)]
     if n <= 1:
         return [F(start)]
